@@ -583,6 +583,23 @@ def check_c05(case):
     tvars = [(t, v) for t, v in vs if t.startswith(("identity", "shift", "reversal", "centre_perm"))]
     if TIER[0] == "quick":
         tvars = tvars[:8]
+        # plus exchanges of two centre atoms (numberings over the same label set that move a label onto another atom): all of
+        # them for centres of <= 6 atoms, those of two atoms of one element otherwise; the thorough tier has every centre
+        # permutation of small centres anyway
+        s0 = tvars[0][1]
+        pr = er.parse(s0)
+        el = {a.GetAtomMapNum(): a.GetSymbol() for a in pr[0].GetAtoms()}
+        seen = {v for _, v in tvars}
+        cm0 = centre_maps(s0)
+        extra = []
+        for i in range(len(cm0)):
+            for j in range(i + 1, len(cm0)):
+                if el.get(cm0[i]) is not None and el.get(cm0[j]) is not None and (len(cm0) <= 6 or el.get(cm0[i]) == el.get(cm0[j])):
+                    v = er.renumber(s0, {cm0[i]: cm0[j], cm0[j]: cm0[i]})
+                    if v not in seen:
+                        seen.add(v)
+                        extra.append(("centre_perm", v))
+        tvars = tvars + [(f"{t}#{k}", v) for k, (t, v) in enumerate(extra[:15])]
     base = None
     nontriv = False
     for invert in (False, True):
@@ -669,6 +686,105 @@ def check_c05(case):
         if not Rcomp_a <= aref:
             fails.append(Fail("comp_not_subset_of_all", f"{d} automorphism=True: {sorted(Rcomp_a - aref)[:1]}", "component-aware results are a subset of the exhaustive ones", key_extra=f"{d},auto"))
     return Outcome(nontrivial=nontriv, outcome="c05", fails=fails, transitions=n)
+
+
+def gen_cur_foreign(tier, seed):
+    from mc.curated import CURATED, CUR_FOREIGN, minimal_explicit
+
+    for name, subs in CUR_FOREIGN.items():
+        for sub in subs:
+            yield [f"cur#{name}", minimal_explicit(CURATED[name]), sub]
+
+
+def relabel_template(T: nx.Graph, perm: Dict) -> nx.Graph:
+    """the template graph with its node ids permuted over its own id set (atom_map follows the id)"""
+    H = type(T)()
+    H.graph.update(T.graph)
+    for v in sorted(T.nodes, key=lambda x: perm.get(x, x)):
+        d = dict(T.nodes[v])
+        if "atom_map" in d:
+            d["atom_map"] = perm.get(v, v)
+        H.add_node(perm.get(v, v), **d)
+    for u, v, d in T.edges(data=True):
+        H.add_edge(perm.get(u, u), perm.get(v, v), **dict(d))
+    return H
+
+
+def own_label_permutations(nodes, limit_double=60):
+    """permutations of a template's own id set: identity, rotation, reversal, every exchange of two ids, every pair of disjoint exchanges (small templates)"""
+    nodes = sorted(nodes)
+    n = len(nodes)
+    out = [("identity", {})]
+    if n > 1:
+        out.append(("rotation", {nodes[i]: nodes[(i + 1) % n] for i in range(n)}))
+        out.append(("reversal", {nodes[i]: nodes[n - 1 - i] for i in range(n)}))
+    pairs = [(nodes[i], nodes[j]) for i in range(n) for j in range(i + 1, n)]
+    if n <= 8:
+        for a, b in pairs:
+            out.append((f"exchange{a}-{b}", {a: b, b: a}))
+    if n <= 6:
+        k = 0
+        for i, (a, b) in enumerate(pairs):
+            for c, d in pairs[i + 1:]:
+                if len({a, b, c, d}) == 4 and k < limit_double:
+                    out.append((f"exchange{a}-{b},{c}-{d}", {a: b, b: a, c: d, d: c}))
+                    k += 1
+    return out
+
+
+def check_cur_foreign(case):
+    """a hand-written rule (centre, and centre + first shell) on substrates with several inequivalent sites: the set of distinct
+    reactions is the same for every numbering of the template over its own id set (rotation, reversal, every exchange of two ids,
+    every pair of disjoint exchanges), every writing of the substrate, both pruning modes, and every output is a genuine instance"""
+    rid, s, sub0 = case
+    fails = []
+    n = 0
+    sub = er.canon_side(sub0)
+    g = rd_its(s)
+    centre_ok = centre_carries_all_changes(s)
+    ch = change_graph_from_rd(g, isolated=centre_ok)
+    tpls = templates_of(s, radii=(1,))
+    m = Chem.MolFromSmiles(sub)
+    na = m.GetNumAtoms()
+    rew = [Chem.MolToSmiles(m, rootedAtAtom=r, canonical=False) for r in (range(na) if TIER[0] != "quick" else sorted({0, na // 2, na - 1}))] + er.fragment_orders(sub, TIER[0] != "quick")
+    nontriv = False
+    for kind in ("centre", "r1"):
+        if kind not in tpls:
+            continue
+        T = tpls[kind]
+        perms = own_label_permutations(T.nodes)
+        for auto in (False, True):
+            ref = None
+            for tag, perm in perms:
+                sr = apply(sub, relabel_template(T, perm), rid, False, "all", automorphism=auto)
+                if len(sr.mappings) > MAX_MATCHES:
+                    break
+                if auto is False and tag == "identity":
+                    judge_outputs(sr, sub, False, ch, f"{kind} {sub}", fails, "judge", rule_balanced=centre_ok, isolated=centre_ok)
+                R = result_set(sr.smarts_list)
+                n += 1
+                if ref is None:
+                    ref = R
+                    nontriv = nontriv or len(R) > 1
+                elif R != ref:
+                    fails.append(Fail("template_numbering_changes_results", f"{kind} automorphism={auto} {tag}: {len(R)} results vs {len(ref)}; only here {sorted(R - ref)[:1]} only there {sorted(ref - R)[:1]}", "same set of distinct reactions", key_extra=f"{kind},{auto}"))
+                    break
+            if ref is None:
+                continue
+            for w in rew:
+                R = result_set(apply(w, T, rid, False, "all", automorphism=auto).smarts_list)
+                n += 1
+                if R != ref:
+                    fails.append(Fail("substrate_rewriting_changes_results", f"{kind} automorphism={auto} {w}: {len(R)} results vs {len(ref)}", "same set of distinct reactions", key_extra=f"{kind},{auto}"))
+                    break
+            Rc = result_set(apply(sub, T, rid, False, "comp", automorphism=auto).smarts_list)
+            Rb = result_set(apply(sub, T, rid, False, "bt", automorphism=auto).smarts_list)
+            n += 2
+            if not Rc <= ref:
+                fails.append(Fail("comp_not_subset_of_all", f"{kind} automorphism={auto}: {sorted(Rc - ref)[:1]}", "component-aware results are a subset of the exhaustive ones", key_extra=f"{kind},{auto}"))
+            if (Rc and Rb != Rc) or (not Rc and Rb != ref):
+                fails.append(Fail("bt_differs", f"{kind} automorphism={auto}: |bt|={len(Rb)} |comp|={len(Rc)} |all|={len(ref)}", "fallback = component-aware result when non-empty, else the exhaustive one", key_extra=f"{kind},{auto}"))
+    return Outcome(nontrivial=nontriv, outcome=f"multi{int(nontriv)}", fails=fails, transitions=n)
 
 
 def check_template_forms(case):
@@ -889,6 +1005,8 @@ def c05_subs(tier, seed):
     setup(tier, seed)
     return [
         Sub("representations", gen_rxn, check_c05, key=lambda c: c[0], rule="representation independence"),
+        Sub("curated_foreign", gen_cur_foreign, check_cur_foreign, key=lambda c: f"{c[0]} @ {c[2]}", rule="hand-written rules (centre; centre + first shell) on 2-3 substrates each that offer several inequivalent sites: every numbering of the template over its own id set "
+            "(rotation, reversal, every exchange of two ids, every pair of disjoint exchanges), every writing of the substrate, pruning modes, strategies"),
         Sub("template_forms", gen_rxn, check_template_forms, key=lambda c: c[0], rule="template as reaction string / ITS graph / SynRule object, centre and full, forwards and backwards"),
     ]
 
